@@ -205,6 +205,15 @@ class LabHandle(desper.WorldHandle):
         self.envx.loading = self.name
         return super().load()
 
+    # handles may define value equality (say, a dataclass holding a file
+    # name): all of them compare and hash equal here - the loop is about
+    # handle *objects*
+    def __eq__(self, other):
+        return isinstance(other, LabHandle)
+
+    def __hash__(self):
+        return 11
+
     def populate(self, handle, world):
         envx = self.envx
         self.count += 1
@@ -564,6 +573,9 @@ def run(tier, rep):
         'requests with a sixth field: the running code first calls clear() '
         'on the handle it runs from (its world keeps running); that handle '
         'then counts as not loaded - switching to it enters a fresh instance',
+        'all handles compare and hash equal (value equality is legal for '
+        'Handle subclasses): which handle is left or entered is a matter of '
+        'identity',
         'source "release": the running world disables its dispatching, '
         'dispatches three events and enables again inside its frame; the '
         'callback of the first event asks for the switch.  The two events '
